@@ -18,7 +18,7 @@ LEVEL = "model_checking"
 RULE = ("shared property p declared by two allOf members: full product of ordered kind pairs (17 x 17) x member form (ref+inline; "
         "thorough: inline+inline, ref+ref) x requiredness pattern (4) x default pattern (none / first member / second member); each "
         "case generates BOTH member orders; plus inheritance chains and diamonds under all declaration orders and members with "
-        "disjoint property sets, a colliding sibling (snake-case equal to the shared name), enums whose member names are a subset while the values are not, self-referential root parents inherited through chains, single-reference allOf that adds properties / required / additionalProperties, names that are suffixes / prefixes of one another, schemas titled like the schema they compose, a child composed from an alias (one-member allOf / oneOf) of a composed parent or of another alias under all 24 declaration orders; a second composition of the referenced member declared before / after (it keeps the member's own kind, requiredness and default); oracle: order-swap differential on the abstract attribute type, RM-narrow partial order, union of "
+        "disjoint property sets, a colliding sibling (snake-case equal to the shared name), enums whose member names are a subset while the values are not, self-referential root parents inherited through chains, single-reference allOf that adds properties / required / additionalProperties, names that are suffixes / prefixes of one another, schemas titled like the schema they compose, compositions written inline inside a property / array items after an ordinary inline object property (parents declared before or after), a child composed from an alias (one-member allOf / oneOf) of a composed parent or of another alias under all 24 declaration orders; a second composition of the referenced member declared before / after (it keeps the member's own kind, requiredness and default); oracle: order-swap differential on the abstract attribute type, RM-narrow partial order, union of "
         "properties and of requiredness, round trip of instances valid for all members; non-trivial = both orders generated or diagnosed; referenced members without properties, a sibling composition of the same parent that fails (type conflict, non-object member, dangling reference), a default carried by an untyped member")
 FLOOR = 0.5
 ASSUMPTIONS = ["RM-narrow: integer < number, date/date-time < string, enum < its base type, sub-enum < enum, everything < any, array(k) ordered like k"]
@@ -200,12 +200,12 @@ def cases(tier):
         yield {"labels": [f"k1={kname(k1)}", f"k2={kname(k2)}", "form=ref+inline", "req=00", "name=itemCount", "sibling=item_count"],
                "payload": {"mode": "pair", "k1": k1, "k2": k2, "form": "ref+inline", "req": [False, False], "default": "none", "pname": "itemCount",
                            "collide": "item_count"}}
-    for shape in ("chain3", "diamond", "disjoint3", "selfref-chain", "alias-of-composed-parent", "alias-of-alias", "single-ref+own-properties", "single-ref+required-only", "single-ref+closed", "single-ref+member-requires-inherited",
+    for shape in ("chain3", "diamond", "disjoint3", "selfref-chain", "alias-of-composed-parent", "alias-of-alias", "inline-allof-in-properties", "single-ref+own-properties", "single-ref+required-only", "single-ref+closed", "single-ref+member-requires-inherited",
                   "empty-parent:type-only", "empty-parent:addl-only", "empty-parent:empty-properties", "empty-parent:middle-of-chain",
                   "failing-sibling:type-conflict", "failing-sibling:non-object-member", "failing-sibling:dangling"):
         names = {"chain3": ["Base", "Mid", "M"], "diamond": ["Base", "Left", "Right", "M"], "disjoint3": ["P1", "P2", "P3", "M"],
                  "selfref-chain": ["Base", "Mid", "M"], "alias-of-composed-parent": ["Base", "Mid", "Alias", "M"],
-                 "alias-of-alias": ["Base", "Alias", "Alias2", "M"]}.get(shape, ["Base", "Bad", "M", "User"] if shape.startswith("failing-sibling") else ["Base", "M", "User"])
+                 "alias-of-alias": ["Base", "Alias", "Alias2", "M"], "inline-allof-in-properties": ["Addr", "Event", "M"]}.get(shape, ["Base", "Bad", "M", "User"] if shape.startswith("failing-sibling") else ["Base", "M", "User"])
         for order in itertools.permutations(names):
             if tier == "quick" and shape == "diamond" and order[0] not in ("M", "Base"):
                 continue
@@ -428,6 +428,17 @@ def _shape(p):
                  "M": {"allOf": [ref("Alias"), {"type": "object", "required": ["own"], "properties": {"own": {"type": "boolean"}}}]}}
         expect = {"id": ("int", True), "mid": ("str", False), "own": ("bool", True)}
         inst = {"id": 1, "mid": "m", "own": True}
+    elif shape == "inline-allof-in-properties":
+        # compositions written INLINE inside property schemas (a property, the items of an array), after an ordinary inline object
+        # property of the same model; the referenced parents are declared before or after the model
+        comps = {"Addr": {"type": "object", "required": ["street"], "properties": {"street": {"type": "string"}, "zip": {"type": "string"}}},
+                 "Event": {"type": "object", "properties": {"at": {"type": "string", "format": "date"}}},
+                 "M": {"type": "object", "properties": {
+                     "note": {"type": "object", "properties": {"t": {"type": "string"}}},
+                     "ship": {"allOf": [ref("Addr"), {"type": "object", "properties": {"fast": {"type": "boolean"}}}]},
+                     "hist": {"type": "array", "items": {"allOf": [ref("Event"), {"type": "object", "required": ["what"], "properties": {"what": {"type": "string"}}}]}}}}}
+        expect = {"note": ("model", False), "ship": ("model", False), "hist": (("array", "model"), False)}
+        inst = {"note": {"t": "x"}, "ship": {"street": "s", "zip": "z", "fast": True}, "hist": [{"at": "2020-01-02", "what": "w"}, {"what": "v"}]}
     elif shape == "alias-of-alias":
         comps = {"Base": {"type": "object", "required": ["id"], "properties": {"id": {"type": "integer"}, "label": {"type": "string"}}},
                  "Alias": {"allOf": [ref("Base")]}, "Alias2": {"oneOf": [ref("Alias")]},
